@@ -351,7 +351,12 @@ theorem tr_applyFunction_succ {n} (h : ∀ node, Tr (eval n node)) (fn args) :
   cases fn
   case func f =>
     rw [applyFunction]
-    refine tr_bind tr_cacheGet ?_
+    refine tr_bind tr_curEnv ?_
+    intro c0
+    refine tr_bind tr_getFrame ?_
+    intro cf0
+    refine tr_bind (x := if (cf0.localFunc && sameFunction cf0 f) = true then pure none else cacheGet f.key args)
+      (by split <;> tr) ?_
     intro r
     dsimp only
     split
